@@ -102,6 +102,10 @@ def run(prog, rep):
             continue
         npaths += 1
         nm = [l[0] for l in log]
+        if 'H5Fget_obj_ids' in nm:
+            if nm[-1:] != ['close']:
+                pprobs.append('a path does not end with H5Object::close() on the file id')
+            continue        # the ids were asked for on this path (with or without a count query before)
         if 'H5Fget_obj_count' not in nm:
             pprobs.append('a path closes the file without asking for the open objects (taken when %s)' % ' && '.join(('' if v else '!') + repr(k)[:60] for k, v in sorted(assign.items(), key=repr) if 'isOpen' not in repr(k) and 'loop' not in repr(k)))
             continue
